@@ -2,6 +2,7 @@ import Driver.Proto
 import RsModel.Model.EqHash
 import RsModel.Model.Json
 import RsModel.Model.Conc
+import RsModel.Model.ConcV
 import RsModel.Model.Checked
 /-!
 # `rsdriver`: reads protocol requests on stdin, answers on stdout, one line each.
@@ -85,6 +86,45 @@ def concReplay (s : Conc.Sys) : List Nat → List Nat → Conc.Sys × List Nat
 def pOp : P Conc.Op := fun ts => match ts with
   | "s" :: ts => some (.sorted, ts) | "c" :: ts => some (.clone, ts) | "m" :: ts => some (.cmap, ts)
   | "t" :: ts => some (.cstream, ts) | "o" :: ts => some (.once, ts) | _ => none
+
+/-! the same replay on the value-carrying protocol (`Model/ConcV.lean`) -/
+def concvStep (P : ConcV.Params) (s : ConcV.Sys) (i : Nat) : Option ConcV.Sys :=
+  match ConcV.step P s i with
+  | none => none
+  | some s' =>
+    match s'.ths[i]? with
+    | some t =>
+      match t.ops.head?, t.pc with
+      | some .clone, 2 => some ((ConcV.step P s' i).getD s')
+      | some .once, 1 => some ((ConcV.step P s' i).getD s')
+      | _, _ => some s'
+    | none => some s'
+
+def concvReplay (P : ConcV.Params) (s : ConcV.Sys) : List Nat → List Nat → ConcV.Sys × List Nat
+  | pending, [] => (s, pending)
+  | pending, i :: rest =>
+    match concvStep P s i with
+    | some s' =>
+      let (s'', pend') := pending.foldl (fun (acc : ConcV.Sys × List Nat) j =>
+        match concvStep P acc.1 j with | some x => (x, acc.2) | none => (acc.1, acc.2 ++ [j])) (s', [])
+      concvReplay P s'' pend' rest
+    | none => concvReplay P s (pending ++ [i]) rest
+
+def pOpV : P ConcV.Op := fun ts => match ts with
+  | "s" :: ts => some (.sorted, ts) | "c" :: ts => some (.clone, ts)
+  | "m" :: ts => some (.call (.io (true, .map)), ts) | "t" :: ts => some (.call (.io (true, .stream)), ts)
+  | "n" :: ts => some (.call (.io (false, .map)), ts) | "u" :: ts => some (.call (.io (false, .stream)), ts)
+  | "o" :: ts => some (.once, ts) | _ => none
+
+/-- one completed call, as the single-threaded verbs print their answers -/
+def showAnsV (inner : Text) : ConcV.Ans → String
+  | .sorted rs => "text " ++ showText (RState.source inner { repls := [], sorted := rs, isSorted := true })
+  | .cloned c => "text " ++ showText (c.source inner)
+  | .call _ (.io (.stream r)) => "stream " ++ showSResult r
+  | .call _ (.io (.map m)) => "map " ++ showOpt showSMap m
+  | .call _ (.text t) => "text " ++ showText t
+  | .call _ (.num n) => s!"num {n}"
+  | .once _ => "once"
 
 structure DState where
   trees : List (String × Src) := []
@@ -182,6 +222,19 @@ def step (d : DState) (line : String) : DState × String :=
         (d, s!"ok {" ".intercalate oks} entry {match fin.sh.entry with | none => "-" | some .M => "M" | some .S => "S"} flag {showBool fin.sh.flag} idx {showBool fin.sh.idxSorted} once {showBool fin.sh.once} lock {showOpt toString fin.sh.lock} pending {pend.length}")
       | _ => bad
     | none => bad
+  -- concv R C progs sched: R a ReplaceSource tree (shared, not yet sorted), C a CachedSource tree (shared, cold)
+  | "concv" :: rn :: cn :: rest =>
+    match d.tree? rn, d.tree? cn, pList (pList pOpV) rest with
+    | some (.replace rinner rs), some (.cached id cinner), some (progs, rest2) =>
+      match pList pNat rest2 with
+      | some (sched, []) =>
+        let P : ConcV.Params := { id := id, inner := cinner, hv := 0 }
+        let (fin, pend) := concvReplay P (ConcV.initSys { repls := rs, sorted := [], isSorted := false } [] progs) [] sched
+        let done := fin.ths.all fun t => t.ops.isEmpty
+        let answers := (fin.ths.map fun t => t.outs.map (showAnsV rinner.src)).flatten
+        (d, s!"ok done {showBool done} pending {pend.length} locks {showOpt toString fin.sh.lockT} {showOpt toString fin.sh.lockF} log {fin.sh.log.length}" ++ String.join (answers.map fun a => " # " ++ a))
+      | _ => bad
+    | _, _, _ => bad
   | "enc" :: c :: rest =>
     match pBool [c], pList pMapping rest with
     | some (c, _), some (ms, []) => (d, showText (encodeWith c ms))
